@@ -302,11 +302,17 @@ def rejecting_checks_by_module(c, scope, name_pat):
     cg = _CG_CACHE[id(c)]
     roots = [p for p in sorted(c.paths()) if scope.search(p) and name_pat.search(p) and not re.search(r"::tests?::|::test_", p)]
     reach = set(cg.reach(roots)) | set(roots)
+    # closures are not called by the function that creates them (an iterator adaptor calls them): count them with their parent
+    for q in sorted(c.paths()):
+        m = re.match(r"^(.*?)(::\{closure#\d+\})+$", q)
+        if m and m.group(1) in reach:
+            reach.add(q)
     out = {}
     for p in sorted(reach):
         if not scope.search(p) or re.search(r"::tests?::|::test_", p) or p not in cg.bodies:
             continue
-        mm = re.search(r"(concordium_base::(?:[a-z_0-9]+::)*[a-z_0-9]+)::", p)
+        q = re.sub(r"(::\{closure#\d+\})+$", "", p)          # a closure belongs to the module of its function
+        mm = re.search(r"(concordium_base::(?:[a-z_0-9]+::)*[a-z_0-9]+)::", q)
         mod = "::".join((mm.group(1) if mm else "?").split("::")[:3])
         for b in c.get_all(p):
             f = Fn(b)
